@@ -1199,28 +1199,16 @@ class Mailbox:
             new_msg_keys,
         )
 
-        self.msg_keys.extend(new_msg_keys)
-        new_uids = list(range(self.next_uid, self.next_uid + num_new_msgs))
-        logger.debug(
-            "Mailbox: %s, num new uids: %d, new uid's: %s",
-            self.name,
-            len(new_uids),
-            new_uids,
-        )
-        self.uids.extend(new_uids)
-        if self.uids:
-            self.next_uid = self.uids[-1] + 1
-        self._rebuild_index_dicts()
-
-        if len(self.uids) != len(self.msg_keys):
-            logger.warning(
-                "Mailbox '%s', after append of new uid's the counts are off.",
-                self.name,
-            )
-
         # Determine the sequences for the new messages so we know what
         # FETCH messages to send (and to upate our internal sequences
         # representations)
+        #
+        # NOTE: This is done before the new messages are added to
+        #       `self.msg_keys` and `self.uids`. The loop below yields to
+        #       other tasks, so this task may be cancelled in the middle of it
+        #       (the server shutting down.) The mailbox's state then gets
+        #       committed to the db and it must not claim to already know
+        #       messages whose sequences have not been worked out yet.
         #
         self.marked(True)
         async with self.mh_sequences_lock:
@@ -1256,6 +1244,25 @@ class Mailbox:
             # of the universe.
             #
             self.set_sequences_in_folder(self.sequences)
+
+        self.msg_keys.extend(new_msg_keys)
+        new_uids = list(range(self.next_uid, self.next_uid + num_new_msgs))
+        logger.debug(
+            "Mailbox: %s, num new uids: %d, new uid's: %s",
+            self.name,
+            len(new_uids),
+            new_uids,
+        )
+        self.uids.extend(new_uids)
+        if self.uids:
+            self.next_uid = self.uids[-1] + 1
+        self._rebuild_index_dicts()
+
+        if len(self.uids) != len(self.msg_keys):
+            logger.warning(
+                "Mailbox '%s', after append of new uid's the counts are off.",
+                self.name,
+            )
 
         num_recent = len(self.sequences["Recent"])
         num_msgs = len(msg_keys)
